@@ -1,4 +1,32 @@
 import PsiModel.Epochs
+import PsiProofs.Helper.C18_Epochs
+/-! C18 — property theorems for the boolean-epoch utilities. -/
 namespace Psi.Epochs
-theorem placeholder : maximalRuns [] = [] := rfl
+
+/-- `util.epochs` (code-faithful model, with its special cases and both boundary fix-ups)
+never raises and returns exactly the maximal runs of `true`, for every boolean array. -/
+theorem epochs_eq_runs : ∀ x : List Bool, epochs x = .ok (maximalRuns x) := by
+  intro x
+  cases x with
+  | nil => rfl
+  | cons b xs =>
+    rw [epochs_eq_core]
+    have hz := runsAux_eq_zip xs 1
+    have hlen : (b :: xs).length = 1 + xs.length := by simp; omega
+    have key := epochsCore_ok (b :: xs).length b (final b xs)
+      (risingIdx 1 b xs) (fallingIdx 1 b xs) (length_rel xs 1 b)
+      (by rw [hlen]; exact risingIdx_bounds xs 1 b)
+      (by rw [hlen]; exact fallingIdx_bounds xs 1 b)
+      (by intro hb; subst hb; exact head_true xs 1)
+      (by intro hb; subst hb; exact head_false xs 1)
+      (fun hf => fun f => last_true xs 1 b f hf)
+      (fun hf => fun r => last_false xs 1 b r hf)
+    simp only [List.head?_cons, tsRising, tsFalling]
+    rw [key, hlen]
+    cases b
+    · simp [maximalRuns, runsAux, hz.1]
+    · simp [maximalRuns, runsAux, hz.2]
+
+example : epochs [true, true, false, true] = .ok [(0, 2), (3, 4)] := rfl
+
 end Psi.Epochs
